@@ -144,6 +144,11 @@ def universes(quick):
         ["kg", "g", "lb", "oz", "m", "km", "in", "s", "h", "N", "J", "kWh", "km/h",
          "K", "°C", "°F", "B", "b", "m²", "ha", "l", "W", "Hz", "kB/s"]
     units = [Unit(s) for s in syms]
+    # an alias of a base unit: equal to it (units compare by scale), but a
+    # derived element that must be expanded by normalisation
+    import quantity.predefined as _P
+    from . import world as _W
+    units.append(_P.Length.new_unit(_W.uid("mx"), define_as=Decimal(1) * _P.METRE))
 
     def declare(name, define_as=None):
         return ClassWithDefinitionMeta(name, (), {}, define_as=define_as)
